@@ -1,11 +1,5 @@
-from contracts import e2e_fragments as FR
-FR.SCENARIOS.update({
- "closure": ("""
-   fragment B on Node { id }
-   fragment A on Node { ...B }
-   query Op1 { me { ...B name } }
-   query Op2 { node { ...A } }
- """, {"op_2": {"Op2Node": ["A"]}, "fragments": {"A": ["B"]}}),
-})
-print(FR.witness_known("fragment-base-in-one-operation-unpacked-in-another"))
-print(FR.check_scenario("closure"))
+from contracts import e2e_results as R
+for text in ["query Q { me { id ... { name } } }", "query Q { node { id ... { id } ... on User { name } } }", "query Q { node { ... { id } } actor { ... { __typename } ... on Bot { id } } }",
+  "fragment F on Node { ... { id } } query Q { node { ...F } me { ...F ... { name } } }"]:
+    r=R.check_operation("x", text, snake=True)
+    print(r["failed"], str(r["outcome"])[:200])
